@@ -349,7 +349,7 @@ pub fn lex_of_nd(fi: usize, v: &ND, tape: &[u8]) -> LN {
 
 fn wild_string(fi: usize) -> BoxedStrategy<String> {
     let v = vocab(fi);
-    let mut pool: Vec<String> = vec!["", "NaN", "nan", "inf", "-inf", "infinity", "1e400", "1e-400", "-0", "+7", "-1", "1.5", "2", "0.5", "1", "0", ":!:", "t=", "发生在--", ":!5", "!5:", ":|", "abc", " ", "0x10", "١", "1_0", "1e0", "+", "-", "18446744073709551616", "18446744073709551615", "-5", "٣"]
+    let mut pool: Vec<String> = vec!["", "NaN", "nan", "inf", "-inf", "infinity", "1e400", "1e-400", "-0", "+7", "-1", "1.5", "2", "0.5", "1", "0", ":!:", "t=", "发生在--", ":!5", "!5:", ":|", "abc", " ", "0x10", "١", "1_0", "1e0", "+", "-", "18446744073709551616", "18446744073709551615", "99999999999999999999", "-9223372036854775808", "9223372036854775808", "-5", "٣"]
         .into_iter()
         .map(|s| s.to_string())
         .collect();
